@@ -72,8 +72,11 @@ FinishCiq ==
          f9 == Add(f8, fin.gram # NA => fin.gram <= thr + 1000, "quadrature-root-gram-is-not-the-inverse")
          \* the same for the forward quadrature: b |-> weighted sum of K (shifted solves) satisfies M M^T = K (with or without a preconditioner)
          f10 == Add(f9, fin.gramsqrt # NA => fin.gramsqrt <= thr + 1000, "forward-quadrature-root-gram-is-not-the-matrix")
-     IN /\ fails' = f10
-        /\ PrintT(ToJson([tid |-> Tr.tid, fails |-> f10, drift |-> FALSE]))
+         \* contour-integral samples: documented shape, independent across draws and batch members, covariance K (measured by the recorder
+         \* through the linear map from the injected noise to the samples)
+         f11 == Add(f10, fin.sample_ok, "contour-integral-samples-do-not-have-covariance-K")
+     IN /\ fails' = f11
+        /\ PrintT(ToJson([tid |-> Tr.tid, fails |-> f11, drift |-> FALSE]))
   /\ l' = 1 /\ UNCHANGED <<tid, prev>>
 
 Next == Step \/ FinishMinres \/ FinishCiq
